@@ -174,6 +174,14 @@ let handle kind c =
                 end
               end
             end) arr) arr
+  | "panic" ->
+    let msg = next_bytes c in
+    let what = next c in
+    let rest = String.concat " " (Array.to_list (Array.sub c.toks c.pos (min 12 (Array.length c.toks - c.pos)))) in
+    let input = if what = "DecodeStack" && Array.length c.toks > c.pos then show_b (bytes_of_tok c.toks.(c.pos)) else rest in
+    prop (if what = "DecodeStack" then "decode-total" else "no-panic")
+      (Printf.sprintf "%s panicked (%s) on %s" what (string_of_bytes msg)
+         (if String.length input > 700 then String.sub input (max 0 (String.length input - 700)) 700 else input))
   | "hang" ->
     let what = next c in
     let rest = String.concat " " (Array.to_list (Array.sub c.toks c.pos (min 12 (Array.length c.toks - c.pos)))) in
